@@ -6,6 +6,13 @@ position) must agree.  The Lean mirror of Arpeggio (Peg.Arp, with its
 position-keyed memo cache) is run on the *dumped real parser model* for both
 settings and compared with the real parse tree / failure position.
 
+History: every text is parsed (a) with one pair of meta-models shared by all texts of the case (the
+texts come in random order, so failing and accepted inputs precede each other) and (b) as the FIRST input of
+a freshly compiled pair (whatever the compilation leaves in or shares between the parsing expressions is
+rebound by Arpeggio at the end of the first parse).  Both the model dump and the parse tree / failure
+position of the first parse are observed (the parser clone used by model_from_str is captured) and the
+tree is tied to the Lean mirror as well.
+
 Known finding (Arpeggio, dependency): the memo cache key ignores the whitespace
 context, so an expression reached under two whitespace modes may reuse a result
 computed under the other one.  Classifier: the disagreement disappears when the
@@ -14,9 +21,9 @@ real parser is re-run with the cache key extended by (skipws, ws).
 from harness.core import Check, use_repo
 from harness import gen_grammar as G
 from harness import peg
-from harness.txutil import dump_model, outcome, with_timeout
+from harness.txutil import dump_model, outcome
 
-CFGS = [{}, {}, {"skipws": False}, {"ws": " "}, {"ws": " \t\n"}]
+CFGS = [{}, {}, {}, {"skipws": False}, {"ws": " "}, {"ws": " \t\n"}, {"autokwd": True}, {"ignore_case": True}]
 
 
 class CtxDict(dict):
@@ -34,6 +41,40 @@ class CtxDict(dict):
 
     def __setitem__(self, pos, v):
         dict.__setitem__(self, self._k(pos), v)
+
+
+class _CpuTimeout(BaseException):
+    pass
+
+
+def with_timeout(fn, secs=3):
+    """fn() under a limit of `secs` seconds of user CPU time of this process (ITIMER_VIRTUAL): unlike a wall-clock
+    limit it does not fire because the machine is busy with other work.  Returns fn() or {"other": "Timeout"}.  (The
+    runner's per-case wall-clock alarm stays armed around it.)"""
+    import signal
+
+    def h(signum, frame):
+        raise _CpuTimeout()
+
+    old_h = signal.signal(signal.SIGVTALRM, h)
+    signal.setitimer(signal.ITIMER_VIRTUAL, secs)
+    try:
+        return fn()
+    except _CpuTimeout:
+        return {"other": "Timeout"}
+    finally:
+        signal.setitimer(signal.ITIMER_VIRTUAL, 0)
+        signal.signal(signal.SIGVTALRM, old_h)
+
+
+def memo_pair(f):
+    """(f(False), f(True)) under the time limit.  The memoizing run alone hitting the limit counts as a difference
+    (see _nem): it is confirmed with four times the limit before it is believed."""
+    a = with_timeout(lambda: f(False))
+    b = with_timeout(lambda: f(True))
+    if _timeout(b) and not _timeout(a):
+        b = with_timeout(lambda: f(True), secs=12)
+    return a, b
 
 
 def build(gtext, cfg, memo):
@@ -54,6 +95,103 @@ def load(mm, text):
     return o
 
 
+def first_load(gtext, cfg, memo, text, want_nodes):
+    """Compile the grammar afresh and load `text` as the very first input of the new meta-model.
+    Returns {"load": model dump | error, "parse": {"ok": tree} | {"nomatch": pos, ..} | {"other": ..} | None,
+    "same": the compiled parser model equals `want_nodes` (node numbers of the tree are comparable)}."""
+    use_repo()
+    from textx.exceptions import TextXError, TextXSyntaxError
+
+    mm = build(gtext, cfg, memo)
+    bp = mm._parser_blueprint
+    nodes, top, comments, objs = peg.dump_parser(bp)
+    ids = {id(o): i for i, o in enumerate(objs)}
+    eof_ids = [i for i, o in enumerate(objs) if any(c.__name__ == "EndOfFile" for c in type(o).__mro__)]
+    got = []
+    orig = bp.clone
+
+    def clone():
+        got.append(orig())
+        return got[-1]
+
+    bp.clone = clone  # the parser which model_from_str is going to use (for its parse tree)
+    pa = None
+    try:
+        m = mm.model_from_str(text)
+        lo = {"ok": dump_model(m)}
+    except TextXSyntaxError as e:
+        lo = {"err": [type(e).__name__, e.line, e.col]}
+        pa = {"nomatch": getattr(e.__cause__, "position", None), "line": e.line, "col": e.col}
+    except TextXError as e:
+        lo = {"err": [type(e).__name__, getattr(e, "line", None), getattr(e, "col", None)]}
+    except RecursionError:
+        lo = {"other": "RecursionError"}
+        pa = {"other": "RecursionError"}
+    except Exception as e:
+        lo = {"other": type(e).__name__, "msg": str(e)[:300]}
+    finally:
+        del bp.clone
+
+    def fix(t):
+        if t and t[0] == "t" and t[1] == -1 and t[3] == 0 and eof_ids:
+            t[1] = eof_ids[0]
+        elif t and t[0] in ("n", "l"):
+            for c in t[-1]:
+                fix(c)
+        return t
+
+    if pa is None:
+        tree = getattr(got[0], "parse_tree", None) if got else None
+        if tree is not None:
+            pa = {"ok": fix(peg.tree_json(tree, ids))}
+        elif "other" in lo:
+            pa = {"other": lo["other"], "msg": lo.get("msg", "")[:200]}
+    return {"load": lo, "parse": pa, "same": nodes == want_nodes, "hits": getattr(got[0], "cache_hits", 0) if got else 0}
+
+
+def _drop_unreachable(gtext):
+    """the grammar text (one rule per line, as rendered by gen_grammar) without the rules that can be reached neither
+    from the first rule nor from the Comment rule"""
+    import re
+
+    lines = [ln for ln in gtext.split("\n") if ln.strip()]
+    heads = [re.match(r"\s*(\w+)", ln).group(1) for ln in lines]
+    body = {h: ln.split(":", 1)[1] if ":" in ln else "" for h, ln in zip(heads, lines)}
+    seen, todo = set(), [h for h in heads[:1] + ["Comment"] if h in body]
+    while todo:
+        h = todo.pop()
+        if h not in seen:
+            seen.add(h)
+            todo += [n for n in re.findall(r"[A-Za-z_]\w*", body[h]) if n in body]
+    return "".join(ln + "\n" for h, ln in zip(heads, lines) if h in seen)
+
+
+def _timeout(x):
+    return isinstance(x, dict) and x.get("other") == "Timeout"
+
+
+def _ne(a, b):
+    """a != b as observations; a time-out is no observation at all, nor is a parse tree that could not be got hold
+    of (None)"""
+    if any(x is None or _timeout(x) for x in (a, b)):
+        return False
+    return a != b
+
+
+def _nem(plain, memo):
+    """observation without memoization != observation with memoization.  The plain parser running into the CPU-time
+    limit (exponential backtracking) is no observation; the memoizing parser running into it where the plain parser
+    finished is a difference."""
+    if _timeout(memo) and plain is not None and not _timeout(plain):
+        return True
+    return _ne(plain, memo)
+
+
+def _differs(d):
+    return (_nem(d["load0"], d["load1"]) or _nem(d["parse0"], d["parse1"])
+            or _nem(d["first0"]["load"], d["first1"]["load"]) or _nem(d["first0"]["parse"], d["first1"]["parse"]))
+
+
 class Prop(Check):
     ID = "C19"
     LEAN_MODULE = "TextxVerif.Props.C19"
@@ -64,9 +202,11 @@ class Prop(Check):
     CASE_TIMEOUT = 20
     THOROUGH_CASES = 6000
     RULE = ("generated grammars (common/abstract/match rules, all operators, separators, eolterm, predicates, suppression, "
-            "rule modifiers, Comment rule) x metamodel ws/skipws options x 5 texts (3 derived, 2 mutated); each text parsed "
-            "with memoization on and off on the real code and on the Lean mirror; non-trivial = the memo cache was hit at "
-            "least once while parsing the text")
+            "rule modifiers, Comment rule, alternatives reaching one rule at one position through different kinds of "
+            "reference: plain / suppressed / assigned / under & and ! / optional / repeated) x metamodel ws/skipws/autokwd/"
+            "ignore_case options x 5 texts (3 derived, 2 mutated, random order); each text parsed with memoization on and "
+            "off, both in sequence with one pair of meta-models and as the first input of a freshly compiled pair, on the "
+            "real code and on the Lean mirror; non-trivial = the memo cache was hit at least once while parsing the text")
     MODELLED = ("hand-modelled: Arpeggio's interpreter incl. memo cache, comment cache, ws/eolterm setters (Peg/Arp.lean, "
                 "dependency mirrored statement by statement); tie X: parse tree / failure position of the mirror run on the "
                 "dumped real parser model vs the real parser, memoization on and off; token matching (str compare, re.match) "
@@ -75,10 +215,10 @@ class Prop(Check):
     def gen(self, rng, n, tier):
         for i in range(n):
             r = rng.fork(i)
-            gg = G.GrammarGen(r, links=False, composite_comment=True)
+            gg = G.GrammarGen(r, links=False, composite_comment=True, flavours=True)
             g = gg.grammar()
             cfg = r.choice(CFGS)
-            texts = G.sentences(g, r, 3, 2)
+            texts = r.shuffle(G.sentences(g, r, 3, 2))
             yield {"grammar": G.render_grammar(g), "cfg": cfg, "texts": texts}
 
     def impl(self, case):
@@ -100,15 +240,20 @@ class Prop(Check):
         res["skipws"], res["ws"] = bool(p0.skipws), p0.ws
         for t in case["texts"]:
             d = {"text": t}
-            d["load0"] = with_timeout(lambda: load(mm0, t))
-            d["load1"] = with_timeout(lambda: load(mm1, t))
-            q0 = mm0._parser_blueprint.clone()
-            d["parse0"] = with_timeout(lambda: peg.real_parse(q0, t, objs))
-            q1 = mm1._parser_blueprint.clone()
-            d["parse1"] = with_timeout(lambda: peg.real_parse(q1, t, objs1))
-            d["hits"] = getattr(q1, "cache_hits", 0)
+            d["load0"], d["load1"] = memo_pair(lambda memo: load(mm1 if memo else mm0, t))
+            qs = []
+
+            def parse(memo):
+                qs.append(mm1._parser_blueprint.clone() if memo else mm0._parser_blueprint.clone())
+                return peg.real_parse(qs[-1], t, objs1 if memo else objs)
+
+            d["parse0"], d["parse1"] = memo_pair(parse)
+            d["hits"] = getattr(qs[-1], "cache_hits", 0)
             d["toks"] = peg.tok_tables(nodes, objs, t)
-            if d["load0"] != d["load1"] or d["parse0"] != d["parse1"]:
+            for memo, f in enumerate(memo_pair(lambda memo: first_load(case["grammar"], case["cfg"], memo, t, nodes))):
+                d[f"first{memo}"] = f if "load" in f else {"load": f, "parse": f, "same": False, "hits": 0}
+            d["hits"] = max(d["hits"], d["first1"]["hits"])
+            if _differs(d):
                 # classifier input: memo run with the cache key extended by the whitespace context
                 q2 = mm1._parser_blueprint.clone()
                 for o_ in objs1:
@@ -154,24 +299,40 @@ class Prop(Check):
                 m = out["outs"][2 * k + j]
                 if not self._same(d[key], m):
                     return (f"text {d['text']!r} memo={bool(j)}: real {str(d[key])[:300]} vs mirror {str(m)[:300]}")
+                f = d[f"first{j}"]
+                if f["same"] and f["parse"] is not None and not self._same(f["parse"], m):
+                    return (f"text {d['text']!r} memo={bool(j)}, first parse of a fresh meta-model: real "
+                            f"{str(f['parse'])[:300]} vs mirror {str(m)[:300]}")
         return None
 
     def oracle(self, case, obs):
         if "texts" not in obs:
             return None
         for d in obs["texts"]:
-            if d["load0"] != d["load1"]:
+            if _nem(d["load0"], d["load1"]):
                 return f"text {d['text']!r}: without memoization {str(d['load0'])[:200]}, with memoization {str(d['load1'])[:200]}"
-            if d["parse0"] != d["parse1"]:
+            if _nem(d["parse0"], d["parse1"]):
                 return f"text {d['text']!r}: parse differs: {str(d['parse0'])[:200]} vs {str(d['parse1'])[:200]}"
+            f0, f1 = d["first0"], d["first1"]
+            if _nem(f0["load"], f1["load"]):
+                return (f"text {d['text']!r} as the first input of a fresh meta-model: without memoization "
+                        f"{str(f0['load'])[:200]}, with memoization {str(f1['load'])[:200]}")
+            if _nem(f0["parse"], f1["parse"]):
+                return (f"text {d['text']!r} as the first input of a fresh meta-model: parse differs: "
+                        f"{str(f0['parse'])[:200]} vs {str(f1['parse'])[:200]}")
         return None
 
     def classify(self, case, obs, failure):
         if "texts" not in obs:
             return None
-        bad = [d for d in obs["texts"] if d["load0"] != d["load1"] or d["parse0"] != d["parse1"]]
+        bad = [d for d in obs["texts"] if _differs(d)]
+        # the known finding does not depend on the history of the meta-model: the first parse of a fresh pair shows
+        # exactly what the shared pair shows
         if bad and all(d["parse0"] != d["parse1"] and d.get("parse1ctx") == d["parse0"]
-                       and d.get("parse1fresh") == d["parse1"] for d in bad):
+                       and d.get("parse1fresh") == d["parse1"]
+                       and not _ne(d["first0"]["load"], d["load0"]) and not _ne(d["first1"]["load"], d["load1"])
+                       and not _ne(d["first0"]["parse"], d["parse0"]) and not _ne(d["first1"]["parse"], d["parse1"])
+                       for d in bad):
             return "C19-memo-key-ignores-ws-context"
         return None
 
@@ -191,9 +352,15 @@ class Prop(Check):
         acc = sum(1 for o in obs for d in o.get("texts", []) if "ok" in d["load0"])
         gerr = sum(1 for o in obs if "grammar_error" in o)
         return {"texts": tot, "accepted_texts": acc, "grammar_errors": gerr,
+                "first_parses_tied_to_mirror": sum(1 for o in obs for d in o.get("texts", []) for j in (0, 1)
+                                                   if d[f"first{j}"]["same"] and d[f"first{j}"]["parse"] is not None),
+                "grammars_with_suppressed_rule_refs": sum(1 for c in cases if __import__("re").search(r"\b[A-Z]\w*-", c["grammar"])),
                 "grammars_with_modifiers": sum(1 for c in cases if "[" in c["grammar"].split(":")[0] or "skipws" in c["grammar"] or "ws=" in c["grammar"])}
 
     def shrink(self, case):
         for i in range(len(case["texts"])):
             if len(case["texts"]) > 1:
                 yield dict(case, texts=[case["texts"][i]])
+        g = _drop_unreachable(case["grammar"])
+        if g != case["grammar"]:
+            yield dict(case, grammar=g)
